@@ -76,6 +76,16 @@ def prf_sums(rep, r, n):
             if (v < -1e-15 * flux).any():
                 rep.violation(f'prf-negative:{name}', f'{name} has negative pixel values', {'fwhm': fw, 'x_0': x0, 'y_0': y0})
                 break
+            # the value at a point does not depend on how the points are laid out in the coordinate arrays: transposed (ij-indexed) grids,
+            # flattened coordinates and a scattered permutation give the same values point by point (seed C13-r10 assumed an xy mesh)
+            perm = np.random.RandomState(k).permutation(xx.size)
+            layouts = [('ij-indexed', m(xx.T, yy.T).T), ('flattened', m(xx.ravel(), yy.ravel()).reshape(xx.shape)),
+                       ('scattered-2D', m(xx.ravel()[perm].reshape(xx.shape), yy.ravel()[perm].reshape(xx.shape)).ravel()[np.argsort(perm)].reshape(xx.shape))]
+            lbad = [ln_ for ln_, vv in layouts if not np.allclose(vv, v, rtol=1e-13, atol=1e-300)]
+            if lbad:
+                rep.violation(f'prf-depends-on-coordinate-layout:{name.split(":")[0]}', f'{name}: evaluating the same points as {lbad[0]} coordinate arrays gives other values '
+                              'than on the xy mesh', {'model': name, 'fwhm': [fw, fw2], 'x_0': x0, 'y_0': y0, 'layout': lbad[0]})
+                break
             rot = name == 'GaussianPRF:rotated'
             if abs(tot - flux) > 1e-9 * flux:
                 tag = ':rotated' if rot else ''
